@@ -369,6 +369,8 @@ def eval_term(t, env, cache=None):
                 "sin": math.sin,
                 "arctan2": math.atan2,
                 "pow": lambda a, b: a**b,
+                "mul": lambda a, b: a * b,  # PyVC-U keeps products of symbolic reals uninterpreted (pyvc/wp.py)
+                "inv": lambda a: 1.0 / a if a != 0 else float("nan"),
                 "cerf_re": lambda a, b: float(special.erf(complex(a, b)).real),
                 "cerf_im": lambda a, b: float(special.erf(complex(a, b)).imag),
             }.get(n)
